@@ -397,7 +397,7 @@ def rule_scan(ck: Check, repo: Repo) -> None:
         eff = [e for e in ev if e[0] != "element-end"]
         end = [e for e in ev if e[0] == "element-end"]
         if spec["skip"]:
-            if eff or end != [("element-end", "continue")]:
+            if eff or end not in ([("element-end", "continue")], [("element-end", "next")]):
                 r.violation(q2, f"skipped entry has effects [{name}]", f"{eff}", repo.loc(f2))
             continue
         if spec["dup"]:
